@@ -55,6 +55,8 @@ enum TU {
     Par { braced: bool, p: String, m: Mo },
     /// `$((…))`
     Arith(Vec<TU>),
+    /// `$(command)` / `` `command` `` (command text after unquoting)
+    Cmd { backquote: bool, cmd: String },
 }
 
 #[derive(Clone, Debug, PartialEq)]
@@ -76,6 +78,7 @@ fn tu_tokens(u: &TU, out: &mut Vec<String>) {
     match u {
         TU::Lit(c) => out.push(format!("L{}", tok_char(*c))),
         TU::Bs(c) => out.push(format!("B{}", tok_char(*c))),
+        TU::Cmd { backquote, cmd } => out.push(format!("K{}{}", if *backquote { "b" } else { "" }, enc_str(cmd))),
         TU::Arith(ts) => {
             out.push("A[".into());
             for t in ts {
@@ -141,6 +144,12 @@ fn parse_tu<'a>(tok: &'a str, rest: &mut std::slice::Iter<'a, &'a str>) -> Optio
     }
     if let Some(h) = tok.strip_prefix('B') {
         return Some(TU::Bs(one_char(h)?));
+    }
+    if let Some(h) = tok.strip_prefix("Kb") {
+        return Some(TU::Cmd { backquote: true, cmd: dec_str(h)? });
+    }
+    if let Some(h) = tok.strip_prefix('K') {
+        return Some(TU::Cmd { backquote: false, cmd: dec_str(h)? });
     }
     if tok == "A[" {
         let mut ts = vec![];
@@ -315,6 +324,21 @@ fn is_name_char(c: char) -> bool {
 fn render_tus(ts: &[TU], ctx: Ctx, out: &mut String) -> Option<()> {
     for (i, t) in ts.iter().enumerate() {
         match t {
+            TU::Cmd { backquote, cmd } => {
+                // the commands of the correspondence run: `emit <hex>` (no character that needs quoting in any context)
+                if !cmd.chars().all(|c| c.is_ascii_alphanumeric() || c == ' ' || c == '-') || cmd.is_empty() {
+                    return None;
+                }
+                if *backquote {
+                    out.push('`');
+                    out.push_str(cmd);
+                    out.push('`');
+                } else {
+                    out.push_str("$(");
+                    out.push_str(cmd);
+                    out.push(')');
+                }
+            }
             TU::Arith(content) => {
                 // parentheses inside the content must balance (the lexer counts them)
                 let mut depth = 0i32;
@@ -552,9 +576,12 @@ fn from_text_unit(t: &sx::TextUnit) -> Option<TU> {
             };
             TU::Par { braced: true, p: bp.param.id.clone(), m }
         }
+        sx::TextUnit::CommandSubst { content, .. } => TU::Cmd { backquote: false, cmd: content.to_string() },
+        sx::TextUnit::Backquote { content, .. } => TU::Cmd { backquote: true, cmd: content.unquote().0 },
         sx::TextUnit::Arith { content, .. } => {
             TU::Arith(content.0.iter().map(from_text_unit).collect::<Option<Vec<_>>>()?)
         }
+        #[allow(unreachable_patterns)]
         _ => return None,
     })
 }
@@ -911,6 +938,19 @@ fn strip_api_ok(chars: &[AttrChar]) -> bool {
     a && b && c && af.strip().value == plain
 }
 
+/// `emit <hex>`: writes the decoded text to standard output as it is (no newline added) — the value source of the
+/// command substitutions
+fn emit_main(env: &mut VEnv, args: Vec<yash_env::semantics::Field>) -> yverif::shell::BuiltinFuture<'_> {
+    let text = args.first().and_then(|f| dec_str(&f.value)).unwrap_or_default();
+    Box::pin(async move {
+        use yash_env::system::concurrency::WriteAll as _;
+        match env.system.write_all(yash_env::io::Fd::STDOUT, text.as_bytes()).await {
+            Ok(_) => ExitStatus::SUCCESS.into(),
+            Err(_) => ExitStatus::FAILURE.into(),
+        }
+    })
+}
+
 fn script_for(ctx: &str, srcs: &[String], locals: &[(String, Option<String>)]) -> Option<String> {
     if ctx == "fn" {
         // words 1, 3, … inside a function call (locals declared first), words 2, 4, … at top level after the return
@@ -995,9 +1035,14 @@ fn run_w(state_toks: &[&str], word_text: &str) -> (String, String) {
     let wants: Vec<String> = words.iter().map(|w| word_string(w)).collect();
     let ctx2 = ctx.clone();
     let words2 = words.clone();
+    let has_cmd = word_text.split_whitespace().any(|t| t.starts_with('K'));
     let (outcome, fin) = run_with(
         config(script, &st),
         move |env, sys| {
+            env.builtins.insert(
+                "emit",
+                yash_env::builtin::Builtin::new(yash_env::builtin::Type::Mandatory, emit_main),
+            );
             apply_state(env, &st2);
             for (n, d) in &st2.homes {
                 sys.borrow_mut().home_dirs.insert(n.clone(), yash_env::path::PathBuf::from(d.as_str()));
@@ -1047,6 +1092,11 @@ fn run_w(state_toks: &[&str], word_text: &str) -> (String, String) {
                     }
                     _ => None,
                 };
+                if has_cmd {
+                    // a command substitution needs the executor (pipe, subshell): the direct expansion cannot complete
+                    // inside this synchronous hook; only the parser round trip is checked for such words
+                    continue;
+                }
                 let r = if ctx2 == "fn" && step % 2 == 0 {
                     // inside a function call: own variable context with the declared locals, same positional parameters
                     let pos = env2.variables.positional_params().values.clone();
@@ -1138,7 +1188,9 @@ fn run_w(state_toks: &[&str], word_text: &str) -> (String, String) {
                 let this_step = fields[before..].to_vec();
                 d.steps.push(this_step);
             }
-            d.expect = Some(Ok(fields));
+            if !has_cmd {
+                d.expect = Some(Ok(fields));
+            }
         },
         |env, _| (show_vars(env), env.variables.get("v").and_then(|v| v.value.clone())),
     );
@@ -1214,6 +1266,7 @@ fn run_w(state_toks: &[&str], word_text: &str) -> (String, String) {
                 Some(Ok(exp)) if exp == fs => {}
                 Some(Ok(exp)) => oracle.push(format!("split:expected:{}", show_fields(exp).replace(' ', "_"))),
                 Some(Err(c)) => oracle.push(format!("shell-succeeded-direct-failed:{c}")),
+                None if has_cmd => {}
                 None => oracle.push("direct-pending".into()),
             }
             show_fields(fs)
@@ -1230,7 +1283,8 @@ fn run_w(state_toks: &[&str], word_text: &str) -> (String, String) {
         }
     };
     let oracle = if oracle.is_empty() { "ok".to_string() } else { format!("FAIL:{}", oracle.join(";")) };
-    (format!("{obs} a={} v={vars}", d.attrs.join("/")), oracle)
+    let attrs = if has_cmd { "~".to_string() } else { d.attrs.join("/") };
+    (format!("{obs} a={attrs} v={vars}"), oracle)
 }
 
 /// `P [portable=1] | <hex of what follows "${">` : the real lexer on `probe ${<src>`
@@ -2290,6 +2344,37 @@ fn arith_state(r: &mut Rng) -> String {
     parts.join(" ")
 }
 
+fn cmd_unit(output: &str, backquote: bool) -> TU {
+    TU::Cmd { backquote, cmd: format!("emit {}", enc_str(output)) }
+}
+
+/// command substitutions as value sources: outputs with blanks, IFS characters, trailing / inner / only newlines,
+/// pattern characters, multi-byte text; `$(…)` and backquotes; bare, in double quotes, between literals, two in a row,
+/// as switch word, as trim pattern (no case here fails: the direct leg is not available for these words)
+fn cmdsubst_family() -> Vec<Vec<WU>> {
+    let outputs = [
+        "", "a", "a b", " a  b ", "a:b", "a\n", "a\n\n\n", "\n", "\n\n", "a\nb\n", ":a::b:", "*", "a b\n c\n", "\u{e9} \u{65e5}\n",
+        "a*", "\\a",
+    ];
+    let mut out = vec![];
+    for o in outputs {
+        for bq in [false, true] {
+            let k = cmd_unit(o, bq);
+            out.push(vec![WU::Unq(k.clone())]);
+            out.push(vec![WU::Dq(vec![k.clone()])]);
+            out.push(vec![WU::Dq(vec![k.clone(), raw("x")]), WU::Unq(raw("x"))]);
+            out.push(vec![lit('x'), WU::Unq(k.clone()), lit('y')]);
+            out.push(vec![WU::Unq(k.clone()), WU::Unq(cmd_unit("b c\n", !bq))]);
+            out.push(vec![WU::Unq(braced("u", Mo::Sw { colon: false, act: '-', w: vec![WU::Unq(k.clone())] }))]);
+            out.push(vec![WU::Dq(vec![braced("u", Mo::Sw { colon: true, act: '-', w: vec![WU::Unq(k.clone())] })])]);
+            out.push(vec![WU::Unq(braced("e", Mo::Sw { colon: true, act: '=', w: vec![WU::Unq(k.clone())] })), WU::Unq(raw("e"))]);
+            out.push(vec![WU::Unq(braced("x", Mo::Tr { side: '#', long: false, w: vec![WU::Unq(k.clone())] }))]);
+            out.push(vec![WU::Unq(braced("x", Mo::Tr { side: '%', long: true, w: vec![WU::Dq(vec![k.clone()])] }))]);
+        }
+    }
+    out
+}
+
 fn w_case(state: &str, w: &[WU]) -> String {
     format!("W {} | {}", state, word_string(w))
 }
@@ -2599,6 +2684,29 @@ fn main() {
         let long_line: String = format!("{}\n", "ab :\u{e9}\\ ".chars().cycle().take(400).collect::<String>());
         for ifs in ifss {
             out(format!("R {ifs} raw=0 n=3 | {}", enc_str(&long_line)).replace("R  ", "R "));
+        }
+    }
+    // 3a*. command substitutions as value sources (own generator stream)
+    {
+        let mut krng = Rng::new(o.seed ^ 0xC01_C5B5);
+        let kk = if thorough { 30 } else { 3 };
+        let ifss = ["", "IFS=s3a", "IFS=s203a", "IFS=s-", "IFS=U", "IFS=s61", "IFS=s0a", "IFS=s2a"];
+        for w in cmdsubst_family() {
+            if !renderable(&w) {
+                continue;
+            }
+            for k in 0..kk {
+                let mut parts: Vec<&str> = vec![*krng.pick(&X_STATES), "e=s-", *krng.pick(&ifss), *krng.pick(&POS_STATES)];
+                parts.retain(|p| !p.is_empty());
+                let st = parts.join(" ");
+                if k % 3 == 2 {
+                    // (function-call histories have their own oracle, which needs the direct leg)
+                    let c = ctx_case(&mut krng, &st, &w);
+                    out(if c.starts_with("W ctx=fn") || c.contains(" ;; ") { w_case(&st, &w) } else { c });
+                } else {
+                    out(w_case(&st, &w));
+                }
+            }
         }
     }
     // 3a+. arithmetic expansions (own generator stream)
